@@ -556,6 +556,26 @@ impl<'tcx> Dumper<'tcx> {
         }
         o.put("debug", J::Arr(dbg));
         // blocks
+        let blocks = self.dump_blocks(body, env);
+        // promoted constants of this body (small bodies: `_1 = <value>; _0 = &_1`)
+        let mut proms = Vec::new();
+        for pb in tcx.promoted_mir(did).iter() {
+            let mut plocals = Vec::new();
+            for (_l, decl) in pb.local_decls.iter_enumerated() {
+                plocals.push(J::obj().set("ty", J::s(decl.ty.to_string())));
+            }
+            proms.push(
+                J::obj()
+                    .set("locals", J::Arr(plocals))
+                    .set("blocks", J::Arr(self.dump_blocks(pb, env))),
+            );
+        }
+        o.put("promoted", J::Arr(proms));
+        o.put("blocks", J::Arr(blocks));
+        o
+    }
+
+    fn dump_blocks(&self, body: &Body<'tcx>, env: TypingEnv<'tcx>) -> Vec<J> {
         let mut blocks = Vec::new();
         for (_bb, data) in body.basic_blocks.iter_enumerated() {
             let mut stmts = Vec::new();
@@ -572,8 +592,7 @@ impl<'tcx> Dumper<'tcx> {
                     .set("term", term),
             );
         }
-        o.put("blocks", J::Arr(blocks));
-        o
+        blocks
     }
 
     fn line(&self, span: Span) -> i128 {
@@ -714,8 +733,8 @@ impl<'tcx> Dumper<'tcx> {
         match c.const_ {
             mir::Const::Unevaluated(uv, _) => {
                 o.put("def", J::s(self.path(uv.def)));
-                if uv.promoted.is_some() {
-                    o.put("promoted", J::Bool(true));
+                if let Some(p) = uv.promoted {
+                    o.put("promoted", J::Int(p.as_usize() as i128));
                 }
             }
             mir::Const::Ty(_, ct) => {
